@@ -51,7 +51,32 @@ fn nest_doc(rng: &mut Rng, quick: bool) -> (DocSpec, &'static str) {
         ("<s>", "</s>", 100_000, "s"),
         ("<strong>", "</strong>", 100_000, "strong"),
     ];
-    let (open, close, maxd, label) = rng.pick(kinds);
+    let (mut open, mut close, mut maxd, label) = {
+        let (a, b, c, d) = rng.pick(kinds);
+        (a.to_string(), b.to_string(), c, d)
+    };
+    // one time in four: any element at all, from the complete lists (special
+    // elements make the HTML parser's scope checks quadratic in depth, so
+    // they stay shallow; phrasing and unknown elements go deep)
+    if rng.chance(1, 4) {
+        let (tag, cap) = if rng.chance(1, 2) {
+            (rng.pick(SPECIAL_TAGS), 3_000)
+        } else {
+            (rng.pick(PHRASING_TAGS), if rng.chance(1, 2) { 100_000 } else { 20_000 })
+        };
+        // <a> inside <a> and <nobr> inside <nobr> close each other; still fine as input
+        let mut o = format!("<{}", tag);
+        if rng.chance(1, 3) {
+            gen_generic_attr(rng, &mut o);
+        }
+        o.push('>');
+        if rng.chance(1, 4) {
+            o.push_str(rng.pick(&["t", "<br>", "<img src=a alt=b>", "&amp;"]));
+        }
+        open = o;
+        close = format!("</{}>", tag);
+        maxd = cap;
+    }
     let depth_choices: &[u32] = if quick {
         &[200, 3_000, 30_000, 100_000, 100_000]
     } else {
